@@ -76,6 +76,25 @@ def _work(job):
         return {"ok": False, "error": traceback.format_exc()}
 
 
+def _work_http(job):
+    _quiet()
+    from . import httprace
+    from . import racedriver as rd
+    try:
+        out = []
+        for (opa, opb) in job["pairs"]:
+            tmpl = rd.Template("tree", {"a": 1})
+            try:
+                na, _ = rd.count_gates(tmpl, opa)
+            finally:
+                tmpl.close()
+            for i in range(0, na + 1, job["stride"]):
+                out.append(httprace.run_http_schedule(opa, opb, [("A", i), ("B", None)]))
+        return {"ok": True, "runs": out}
+    except Exception:
+        return {"ok": False, "error": traceback.format_exc()}
+
+
 def judge(runs, devs):
     from . import racedriver as rd
     uid = [0] * 6
@@ -179,10 +198,17 @@ def run(prop, tier, seed, replay=None):
                 for i in range(0, len(pairs), chunk):
                     jobs.append({"kind": kind, "shared": shared, "pairs": pairs[i:i + chunk],
                                  "deep": 0 if quick else 12, "seed": rng.randrange(1 << 30)})
+        # the same through HTTP: requests to a real aiohttp server whose updates run in its
+        # thread pool, gated at the same file-system steps
+        hp = [(a, b) for (a, b) in pairs if a["t"] != "read" and b["t"] != "read"]
+        rng.shuffle(hp)
+        hp = hp[:6] if quick else hp[:60]
+        hjobs = [{"pairs": [p], "stride": 2 if quick else 1} for p in hp]
         with multiprocessing.get_context("fork").Pool(15) as pool:
             outs = pool.map(_work, jobs, chunksize=1)
+            houts = pool.map(_work_http, hjobs, chunksize=1)
         runs = []
-        for o in outs:
+        for o in outs + houts:
             if not o["ok"]:
                 common.machinery_failure("harness exception:\n" + o["error"])
             runs.extend(o["runs"])
@@ -210,8 +236,8 @@ def run(prop, tier, seed, replay=None):
         elif v["k"] == "note":
             rep.note("run %s: %s" % (r["id"], v["clause"]))
         if v["errors"]:
-            rep.note("lock contention surfaced as an exception instead of LockedError: %s %s"
-                     % (r["kind"], json.dumps(r["res"])))
+            rep.note("lock contention / a lost race surfaced as an exception (HTTP 500) instead of a 412/423 "
+                     "answer: %s%s %s" % (r["kind"], " via HTTP" if r.get("level") == "http" else "", json.dumps(r["res"])))
     rep.notes = sorted(set(rep.notes))[:12]
     for r in runs[:3]:
         samples.append({k: r[k] for k in ("kind", "shared", "ops", "plan", "res", "final")}
@@ -221,6 +247,7 @@ def run(prop, tier, seed, replay=None):
         "transitions": sum(m["states"] for m in models) + len(runs),
         "traces_validated_against_impl": len(runs),
         "evaluations": len(runs),
+        "http_level_runs": len([r for r in runs if r.get("level") == "http"]),
         "distinct_nontrivial": len(nontrivial),
         "rule": "one evaluation = one real two-writer execution under a prescribed interleaving of file-system "
                 "steps; distinct = distinct (store kind, op kinds, same/different name, results, final state)",
